@@ -49,7 +49,8 @@ Record comp := mkComp {
   c_id : N;
   c_kind : N;                 (* 0 answered, 1 rejected (queue full), 2 destroyed *)
   c_reply : reply;
-  c_parts : list (list N) }.  (* ghost: parameter data of the replies this completion was built from *)
+  c_parts : list (list N);    (* ghost: parameter data of the replies this completion was built from *)
+  c_from : list N }.          (* ghost: ids of the dispatches whose answers (as handed out by the mock) built it *)
 
 Inductive tev :=
 | TSend (id : N)              (* underlying SendRDMRequest called with a copy of request id *)
@@ -81,63 +82,72 @@ Record st := mkSt {
   g_fatal : bool;
   g_accepted : list N;
   g_done : list comp;
-  g_runs : list (N * bool * list N);
+  g_runs : list (N * bool * list (bool * N));
   g_ddone : list (N * N);
-  g_trace : list tev
+  g_trace : list tev;
+  g_from : list N;
+  h_open : N;
+  g_rj : N
 }.
 
 Definition set_s_max (v : N) (s : st) : st :=
-  mkSt v (s_discov s) (s_queue s) (s_pending s) (s_active s) (s_resp s) (s_nframes s) (s_pdisc s) (s_rdisc s) (m_out s) (m_dout s) (m_script s) (m_dscript s) (m_nrun s) (h_next s) (h_ndid s) (h_paused s) (g_parts s) (g_conc s) (g_psends s) (g_fatal s) (g_accepted s) (g_done s) (g_runs s) (g_ddone s) (g_trace s).
+  mkSt v (s_discov s) (s_queue s) (s_pending s) (s_active s) (s_resp s) (s_nframes s) (s_pdisc s) (s_rdisc s) (m_out s) (m_dout s) (m_script s) (m_dscript s) (m_nrun s) (h_next s) (h_ndid s) (h_paused s) (g_parts s) (g_conc s) (g_psends s) (g_fatal s) (g_accepted s) (g_done s) (g_runs s) (g_ddone s) (g_trace s) (g_from s) (h_open s) (g_rj s).
 Definition set_s_discov (v : bool) (s : st) : st :=
-  mkSt (s_max s) v (s_queue s) (s_pending s) (s_active s) (s_resp s) (s_nframes s) (s_pdisc s) (s_rdisc s) (m_out s) (m_dout s) (m_script s) (m_dscript s) (m_nrun s) (h_next s) (h_ndid s) (h_paused s) (g_parts s) (g_conc s) (g_psends s) (g_fatal s) (g_accepted s) (g_done s) (g_runs s) (g_ddone s) (g_trace s).
+  mkSt (s_max s) v (s_queue s) (s_pending s) (s_active s) (s_resp s) (s_nframes s) (s_pdisc s) (s_rdisc s) (m_out s) (m_dout s) (m_script s) (m_dscript s) (m_nrun s) (h_next s) (h_ndid s) (h_paused s) (g_parts s) (g_conc s) (g_psends s) (g_fatal s) (g_accepted s) (g_done s) (g_runs s) (g_ddone s) (g_trace s) (g_from s) (h_open s) (g_rj s).
 Definition set_s_queue (v : list (N * list op)) (s : st) : st :=
-  mkSt (s_max s) (s_discov s) v (s_pending s) (s_active s) (s_resp s) (s_nframes s) (s_pdisc s) (s_rdisc s) (m_out s) (m_dout s) (m_script s) (m_dscript s) (m_nrun s) (h_next s) (h_ndid s) (h_paused s) (g_parts s) (g_conc s) (g_psends s) (g_fatal s) (g_accepted s) (g_done s) (g_runs s) (g_ddone s) (g_trace s).
+  mkSt (s_max s) (s_discov s) v (s_pending s) (s_active s) (s_resp s) (s_nframes s) (s_pdisc s) (s_rdisc s) (m_out s) (m_dout s) (m_script s) (m_dscript s) (m_nrun s) (h_next s) (h_ndid s) (h_paused s) (g_parts s) (g_conc s) (g_psends s) (g_fatal s) (g_accepted s) (g_done s) (g_runs s) (g_ddone s) (g_trace s) (g_from s) (h_open s) (g_rj s).
 Definition set_s_pending (v : bool) (s : st) : st :=
-  mkSt (s_max s) (s_discov s) (s_queue s) v (s_active s) (s_resp s) (s_nframes s) (s_pdisc s) (s_rdisc s) (m_out s) (m_dout s) (m_script s) (m_dscript s) (m_nrun s) (h_next s) (h_ndid s) (h_paused s) (g_parts s) (g_conc s) (g_psends s) (g_fatal s) (g_accepted s) (g_done s) (g_runs s) (g_ddone s) (g_trace s).
+  mkSt (s_max s) (s_discov s) (s_queue s) v (s_active s) (s_resp s) (s_nframes s) (s_pdisc s) (s_rdisc s) (m_out s) (m_dout s) (m_script s) (m_dscript s) (m_nrun s) (h_next s) (h_ndid s) (h_paused s) (g_parts s) (g_conc s) (g_psends s) (g_fatal s) (g_accepted s) (g_done s) (g_runs s) (g_ddone s) (g_trace s) (g_from s) (h_open s) (g_rj s).
 Definition set_s_active (v : bool) (s : st) : st :=
-  mkSt (s_max s) (s_discov s) (s_queue s) (s_pending s) v (s_resp s) (s_nframes s) (s_pdisc s) (s_rdisc s) (m_out s) (m_dout s) (m_script s) (m_dscript s) (m_nrun s) (h_next s) (h_ndid s) (h_paused s) (g_parts s) (g_conc s) (g_psends s) (g_fatal s) (g_accepted s) (g_done s) (g_runs s) (g_ddone s) (g_trace s).
+  mkSt (s_max s) (s_discov s) (s_queue s) (s_pending s) v (s_resp s) (s_nframes s) (s_pdisc s) (s_rdisc s) (m_out s) (m_dout s) (m_script s) (m_dscript s) (m_nrun s) (h_next s) (h_ndid s) (h_paused s) (g_parts s) (g_conc s) (g_psends s) (g_fatal s) (g_accepted s) (g_done s) (g_runs s) (g_ddone s) (g_trace s) (g_from s) (h_open s) (g_rj s).
 Definition set_s_resp (v : option resp) (s : st) : st :=
-  mkSt (s_max s) (s_discov s) (s_queue s) (s_pending s) (s_active s) v (s_nframes s) (s_pdisc s) (s_rdisc s) (m_out s) (m_dout s) (m_script s) (m_dscript s) (m_nrun s) (h_next s) (h_ndid s) (h_paused s) (g_parts s) (g_conc s) (g_psends s) (g_fatal s) (g_accepted s) (g_done s) (g_runs s) (g_ddone s) (g_trace s).
+  mkSt (s_max s) (s_discov s) (s_queue s) (s_pending s) (s_active s) v (s_nframes s) (s_pdisc s) (s_rdisc s) (m_out s) (m_dout s) (m_script s) (m_dscript s) (m_nrun s) (h_next s) (h_ndid s) (h_paused s) (g_parts s) (g_conc s) (g_psends s) (g_fatal s) (g_accepted s) (g_done s) (g_runs s) (g_ddone s) (g_trace s) (g_from s) (h_open s) (g_rj s).
 Definition set_s_nframes (v : N) (s : st) : st :=
-  mkSt (s_max s) (s_discov s) (s_queue s) (s_pending s) (s_active s) (s_resp s) v (s_pdisc s) (s_rdisc s) (m_out s) (m_dout s) (m_script s) (m_dscript s) (m_nrun s) (h_next s) (h_ndid s) (h_paused s) (g_parts s) (g_conc s) (g_psends s) (g_fatal s) (g_accepted s) (g_done s) (g_runs s) (g_ddone s) (g_trace s).
+  mkSt (s_max s) (s_discov s) (s_queue s) (s_pending s) (s_active s) (s_resp s) v (s_pdisc s) (s_rdisc s) (m_out s) (m_dout s) (m_script s) (m_dscript s) (m_nrun s) (h_next s) (h_ndid s) (h_paused s) (g_parts s) (g_conc s) (g_psends s) (g_fatal s) (g_accepted s) (g_done s) (g_runs s) (g_ddone s) (g_trace s) (g_from s) (h_open s) (g_rj s).
 Definition set_s_pdisc (v : list (bool * N * list op)) (s : st) : st :=
-  mkSt (s_max s) (s_discov s) (s_queue s) (s_pending s) (s_active s) (s_resp s) (s_nframes s) v (s_rdisc s) (m_out s) (m_dout s) (m_script s) (m_dscript s) (m_nrun s) (h_next s) (h_ndid s) (h_paused s) (g_parts s) (g_conc s) (g_psends s) (g_fatal s) (g_accepted s) (g_done s) (g_runs s) (g_ddone s) (g_trace s).
+  mkSt (s_max s) (s_discov s) (s_queue s) (s_pending s) (s_active s) (s_resp s) (s_nframes s) v (s_rdisc s) (m_out s) (m_dout s) (m_script s) (m_dscript s) (m_nrun s) (h_next s) (h_ndid s) (h_paused s) (g_parts s) (g_conc s) (g_psends s) (g_fatal s) (g_accepted s) (g_done s) (g_runs s) (g_ddone s) (g_trace s) (g_from s) (h_open s) (g_rj s).
 Definition set_s_rdisc (v : list (N * option (list op))) (s : st) : st :=
-  mkSt (s_max s) (s_discov s) (s_queue s) (s_pending s) (s_active s) (s_resp s) (s_nframes s) (s_pdisc s) v (m_out s) (m_dout s) (m_script s) (m_dscript s) (m_nrun s) (h_next s) (h_ndid s) (h_paused s) (g_parts s) (g_conc s) (g_psends s) (g_fatal s) (g_accepted s) (g_done s) (g_runs s) (g_ddone s) (g_trace s).
+  mkSt (s_max s) (s_discov s) (s_queue s) (s_pending s) (s_active s) (s_resp s) (s_nframes s) (s_pdisc s) v (m_out s) (m_dout s) (m_script s) (m_dscript s) (m_nrun s) (h_next s) (h_ndid s) (h_paused s) (g_parts s) (g_conc s) (g_psends s) (g_fatal s) (g_accepted s) (g_done s) (g_runs s) (g_ddone s) (g_trace s) (g_from s) (h_open s) (g_rj s).
 Definition set_m_out (v : list N) (s : st) : st :=
-  mkSt (s_max s) (s_discov s) (s_queue s) (s_pending s) (s_active s) (s_resp s) (s_nframes s) (s_pdisc s) (s_rdisc s) v (m_dout s) (m_script s) (m_dscript s) (m_nrun s) (h_next s) (h_ndid s) (h_paused s) (g_parts s) (g_conc s) (g_psends s) (g_fatal s) (g_accepted s) (g_done s) (g_runs s) (g_ddone s) (g_trace s).
+  mkSt (s_max s) (s_discov s) (s_queue s) (s_pending s) (s_active s) (s_resp s) (s_nframes s) (s_pdisc s) (s_rdisc s) v (m_dout s) (m_script s) (m_dscript s) (m_nrun s) (h_next s) (h_ndid s) (h_paused s) (g_parts s) (g_conc s) (g_psends s) (g_fatal s) (g_accepted s) (g_done s) (g_runs s) (g_ddone s) (g_trace s) (g_from s) (h_open s) (g_rj s).
 Definition set_m_dout (v : list N) (s : st) : st :=
-  mkSt (s_max s) (s_discov s) (s_queue s) (s_pending s) (s_active s) (s_resp s) (s_nframes s) (s_pdisc s) (s_rdisc s) (m_out s) v (m_script s) (m_dscript s) (m_nrun s) (h_next s) (h_ndid s) (h_paused s) (g_parts s) (g_conc s) (g_psends s) (g_fatal s) (g_accepted s) (g_done s) (g_runs s) (g_ddone s) (g_trace s).
+  mkSt (s_max s) (s_discov s) (s_queue s) (s_pending s) (s_active s) (s_resp s) (s_nframes s) (s_pdisc s) (s_rdisc s) (m_out s) v (m_script s) (m_dscript s) (m_nrun s) (h_next s) (h_ndid s) (h_paused s) (g_parts s) (g_conc s) (g_psends s) (g_fatal s) (g_accepted s) (g_done s) (g_runs s) (g_ddone s) (g_trace s) (g_from s) (h_open s) (g_rj s).
 Definition set_m_script (v : list mitem) (s : st) : st :=
-  mkSt (s_max s) (s_discov s) (s_queue s) (s_pending s) (s_active s) (s_resp s) (s_nframes s) (s_pdisc s) (s_rdisc s) (m_out s) (m_dout s) v (m_dscript s) (m_nrun s) (h_next s) (h_ndid s) (h_paused s) (g_parts s) (g_conc s) (g_psends s) (g_fatal s) (g_accepted s) (g_done s) (g_runs s) (g_ddone s) (g_trace s).
+  mkSt (s_max s) (s_discov s) (s_queue s) (s_pending s) (s_active s) (s_resp s) (s_nframes s) (s_pdisc s) (s_rdisc s) (m_out s) (m_dout s) v (m_dscript s) (m_nrun s) (h_next s) (h_ndid s) (h_paused s) (g_parts s) (g_conc s) (g_psends s) (g_fatal s) (g_accepted s) (g_done s) (g_runs s) (g_ddone s) (g_trace s) (g_from s) (h_open s) (g_rj s).
 Definition set_m_dscript (v : list bool) (s : st) : st :=
-  mkSt (s_max s) (s_discov s) (s_queue s) (s_pending s) (s_active s) (s_resp s) (s_nframes s) (s_pdisc s) (s_rdisc s) (m_out s) (m_dout s) (m_script s) v (m_nrun s) (h_next s) (h_ndid s) (h_paused s) (g_parts s) (g_conc s) (g_psends s) (g_fatal s) (g_accepted s) (g_done s) (g_runs s) (g_ddone s) (g_trace s).
+  mkSt (s_max s) (s_discov s) (s_queue s) (s_pending s) (s_active s) (s_resp s) (s_nframes s) (s_pdisc s) (s_rdisc s) (m_out s) (m_dout s) (m_script s) v (m_nrun s) (h_next s) (h_ndid s) (h_paused s) (g_parts s) (g_conc s) (g_psends s) (g_fatal s) (g_accepted s) (g_done s) (g_runs s) (g_ddone s) (g_trace s) (g_from s) (h_open s) (g_rj s).
 Definition set_m_nrun (v : N) (s : st) : st :=
-  mkSt (s_max s) (s_discov s) (s_queue s) (s_pending s) (s_active s) (s_resp s) (s_nframes s) (s_pdisc s) (s_rdisc s) (m_out s) (m_dout s) (m_script s) (m_dscript s) v (h_next s) (h_ndid s) (h_paused s) (g_parts s) (g_conc s) (g_psends s) (g_fatal s) (g_accepted s) (g_done s) (g_runs s) (g_ddone s) (g_trace s).
+  mkSt (s_max s) (s_discov s) (s_queue s) (s_pending s) (s_active s) (s_resp s) (s_nframes s) (s_pdisc s) (s_rdisc s) (m_out s) (m_dout s) (m_script s) (m_dscript s) v (h_next s) (h_ndid s) (h_paused s) (g_parts s) (g_conc s) (g_psends s) (g_fatal s) (g_accepted s) (g_done s) (g_runs s) (g_ddone s) (g_trace s) (g_from s) (h_open s) (g_rj s).
 Definition set_h_next (v : N) (s : st) : st :=
-  mkSt (s_max s) (s_discov s) (s_queue s) (s_pending s) (s_active s) (s_resp s) (s_nframes s) (s_pdisc s) (s_rdisc s) (m_out s) (m_dout s) (m_script s) (m_dscript s) (m_nrun s) v (h_ndid s) (h_paused s) (g_parts s) (g_conc s) (g_psends s) (g_fatal s) (g_accepted s) (g_done s) (g_runs s) (g_ddone s) (g_trace s).
+  mkSt (s_max s) (s_discov s) (s_queue s) (s_pending s) (s_active s) (s_resp s) (s_nframes s) (s_pdisc s) (s_rdisc s) (m_out s) (m_dout s) (m_script s) (m_dscript s) (m_nrun s) v (h_ndid s) (h_paused s) (g_parts s) (g_conc s) (g_psends s) (g_fatal s) (g_accepted s) (g_done s) (g_runs s) (g_ddone s) (g_trace s) (g_from s) (h_open s) (g_rj s).
 Definition set_h_ndid (v : N) (s : st) : st :=
-  mkSt (s_max s) (s_discov s) (s_queue s) (s_pending s) (s_active s) (s_resp s) (s_nframes s) (s_pdisc s) (s_rdisc s) (m_out s) (m_dout s) (m_script s) (m_dscript s) (m_nrun s) (h_next s) v (h_paused s) (g_parts s) (g_conc s) (g_psends s) (g_fatal s) (g_accepted s) (g_done s) (g_runs s) (g_ddone s) (g_trace s).
+  mkSt (s_max s) (s_discov s) (s_queue s) (s_pending s) (s_active s) (s_resp s) (s_nframes s) (s_pdisc s) (s_rdisc s) (m_out s) (m_dout s) (m_script s) (m_dscript s) (m_nrun s) (h_next s) v (h_paused s) (g_parts s) (g_conc s) (g_psends s) (g_fatal s) (g_accepted s) (g_done s) (g_runs s) (g_ddone s) (g_trace s) (g_from s) (h_open s) (g_rj s).
 Definition set_h_paused (v : bool) (s : st) : st :=
-  mkSt (s_max s) (s_discov s) (s_queue s) (s_pending s) (s_active s) (s_resp s) (s_nframes s) (s_pdisc s) (s_rdisc s) (m_out s) (m_dout s) (m_script s) (m_dscript s) (m_nrun s) (h_next s) (h_ndid s) v (g_parts s) (g_conc s) (g_psends s) (g_fatal s) (g_accepted s) (g_done s) (g_runs s) (g_ddone s) (g_trace s).
+  mkSt (s_max s) (s_discov s) (s_queue s) (s_pending s) (s_active s) (s_resp s) (s_nframes s) (s_pdisc s) (s_rdisc s) (m_out s) (m_dout s) (m_script s) (m_dscript s) (m_nrun s) (h_next s) (h_ndid s) v (g_parts s) (g_conc s) (g_psends s) (g_fatal s) (g_accepted s) (g_done s) (g_runs s) (g_ddone s) (g_trace s) (g_from s) (h_open s) (g_rj s).
 Definition set_g_parts (v : list (list N)) (s : st) : st :=
-  mkSt (s_max s) (s_discov s) (s_queue s) (s_pending s) (s_active s) (s_resp s) (s_nframes s) (s_pdisc s) (s_rdisc s) (m_out s) (m_dout s) (m_script s) (m_dscript s) (m_nrun s) (h_next s) (h_ndid s) (h_paused s) v (g_conc s) (g_psends s) (g_fatal s) (g_accepted s) (g_done s) (g_runs s) (g_ddone s) (g_trace s).
+  mkSt (s_max s) (s_discov s) (s_queue s) (s_pending s) (s_active s) (s_resp s) (s_nframes s) (s_pdisc s) (s_rdisc s) (m_out s) (m_dout s) (m_script s) (m_dscript s) (m_nrun s) (h_next s) (h_ndid s) (h_paused s) v (g_conc s) (g_psends s) (g_fatal s) (g_accepted s) (g_done s) (g_runs s) (g_ddone s) (g_trace s) (g_from s) (h_open s) (g_rj s).
 Definition set_g_conc (v : N) (s : st) : st :=
-  mkSt (s_max s) (s_discov s) (s_queue s) (s_pending s) (s_active s) (s_resp s) (s_nframes s) (s_pdisc s) (s_rdisc s) (m_out s) (m_dout s) (m_script s) (m_dscript s) (m_nrun s) (h_next s) (h_ndid s) (h_paused s) (g_parts s) v (g_psends s) (g_fatal s) (g_accepted s) (g_done s) (g_runs s) (g_ddone s) (g_trace s).
+  mkSt (s_max s) (s_discov s) (s_queue s) (s_pending s) (s_active s) (s_resp s) (s_nframes s) (s_pdisc s) (s_rdisc s) (m_out s) (m_dout s) (m_script s) (m_dscript s) (m_nrun s) (h_next s) (h_ndid s) (h_paused s) (g_parts s) v (g_psends s) (g_fatal s) (g_accepted s) (g_done s) (g_runs s) (g_ddone s) (g_trace s) (g_from s) (h_open s) (g_rj s).
 Definition set_g_psends (v : N) (s : st) : st :=
-  mkSt (s_max s) (s_discov s) (s_queue s) (s_pending s) (s_active s) (s_resp s) (s_nframes s) (s_pdisc s) (s_rdisc s) (m_out s) (m_dout s) (m_script s) (m_dscript s) (m_nrun s) (h_next s) (h_ndid s) (h_paused s) (g_parts s) (g_conc s) v (g_fatal s) (g_accepted s) (g_done s) (g_runs s) (g_ddone s) (g_trace s).
+  mkSt (s_max s) (s_discov s) (s_queue s) (s_pending s) (s_active s) (s_resp s) (s_nframes s) (s_pdisc s) (s_rdisc s) (m_out s) (m_dout s) (m_script s) (m_dscript s) (m_nrun s) (h_next s) (h_ndid s) (h_paused s) (g_parts s) (g_conc s) v (g_fatal s) (g_accepted s) (g_done s) (g_runs s) (g_ddone s) (g_trace s) (g_from s) (h_open s) (g_rj s).
 Definition set_g_fatal (v : bool) (s : st) : st :=
-  mkSt (s_max s) (s_discov s) (s_queue s) (s_pending s) (s_active s) (s_resp s) (s_nframes s) (s_pdisc s) (s_rdisc s) (m_out s) (m_dout s) (m_script s) (m_dscript s) (m_nrun s) (h_next s) (h_ndid s) (h_paused s) (g_parts s) (g_conc s) (g_psends s) v (g_accepted s) (g_done s) (g_runs s) (g_ddone s) (g_trace s).
+  mkSt (s_max s) (s_discov s) (s_queue s) (s_pending s) (s_active s) (s_resp s) (s_nframes s) (s_pdisc s) (s_rdisc s) (m_out s) (m_dout s) (m_script s) (m_dscript s) (m_nrun s) (h_next s) (h_ndid s) (h_paused s) (g_parts s) (g_conc s) (g_psends s) v (g_accepted s) (g_done s) (g_runs s) (g_ddone s) (g_trace s) (g_from s) (h_open s) (g_rj s).
 Definition set_g_accepted (v : list N) (s : st) : st :=
-  mkSt (s_max s) (s_discov s) (s_queue s) (s_pending s) (s_active s) (s_resp s) (s_nframes s) (s_pdisc s) (s_rdisc s) (m_out s) (m_dout s) (m_script s) (m_dscript s) (m_nrun s) (h_next s) (h_ndid s) (h_paused s) (g_parts s) (g_conc s) (g_psends s) (g_fatal s) v (g_done s) (g_runs s) (g_ddone s) (g_trace s).
+  mkSt (s_max s) (s_discov s) (s_queue s) (s_pending s) (s_active s) (s_resp s) (s_nframes s) (s_pdisc s) (s_rdisc s) (m_out s) (m_dout s) (m_script s) (m_dscript s) (m_nrun s) (h_next s) (h_ndid s) (h_paused s) (g_parts s) (g_conc s) (g_psends s) (g_fatal s) v (g_done s) (g_runs s) (g_ddone s) (g_trace s) (g_from s) (h_open s) (g_rj s).
 Definition set_g_done (v : list comp) (s : st) : st :=
-  mkSt (s_max s) (s_discov s) (s_queue s) (s_pending s) (s_active s) (s_resp s) (s_nframes s) (s_pdisc s) (s_rdisc s) (m_out s) (m_dout s) (m_script s) (m_dscript s) (m_nrun s) (h_next s) (h_ndid s) (h_paused s) (g_parts s) (g_conc s) (g_psends s) (g_fatal s) (g_accepted s) v (g_runs s) (g_ddone s) (g_trace s).
-Definition set_g_runs (v : list (N * bool * list N)) (s : st) : st :=
-  mkSt (s_max s) (s_discov s) (s_queue s) (s_pending s) (s_active s) (s_resp s) (s_nframes s) (s_pdisc s) (s_rdisc s) (m_out s) (m_dout s) (m_script s) (m_dscript s) (m_nrun s) (h_next s) (h_ndid s) (h_paused s) (g_parts s) (g_conc s) (g_psends s) (g_fatal s) (g_accepted s) (g_done s) v (g_ddone s) (g_trace s).
+  mkSt (s_max s) (s_discov s) (s_queue s) (s_pending s) (s_active s) (s_resp s) (s_nframes s) (s_pdisc s) (s_rdisc s) (m_out s) (m_dout s) (m_script s) (m_dscript s) (m_nrun s) (h_next s) (h_ndid s) (h_paused s) (g_parts s) (g_conc s) (g_psends s) (g_fatal s) (g_accepted s) v (g_runs s) (g_ddone s) (g_trace s) (g_from s) (h_open s) (g_rj s).
+Definition set_g_runs (v : list (N * bool * list (bool * N))) (s : st) : st :=
+  mkSt (s_max s) (s_discov s) (s_queue s) (s_pending s) (s_active s) (s_resp s) (s_nframes s) (s_pdisc s) (s_rdisc s) (m_out s) (m_dout s) (m_script s) (m_dscript s) (m_nrun s) (h_next s) (h_ndid s) (h_paused s) (g_parts s) (g_conc s) (g_psends s) (g_fatal s) (g_accepted s) (g_done s) v (g_ddone s) (g_trace s) (g_from s) (h_open s) (g_rj s).
 Definition set_g_ddone (v : list (N * N)) (s : st) : st :=
-  mkSt (s_max s) (s_discov s) (s_queue s) (s_pending s) (s_active s) (s_resp s) (s_nframes s) (s_pdisc s) (s_rdisc s) (m_out s) (m_dout s) (m_script s) (m_dscript s) (m_nrun s) (h_next s) (h_ndid s) (h_paused s) (g_parts s) (g_conc s) (g_psends s) (g_fatal s) (g_accepted s) (g_done s) (g_runs s) v (g_trace s).
+  mkSt (s_max s) (s_discov s) (s_queue s) (s_pending s) (s_active s) (s_resp s) (s_nframes s) (s_pdisc s) (s_rdisc s) (m_out s) (m_dout s) (m_script s) (m_dscript s) (m_nrun s) (h_next s) (h_ndid s) (h_paused s) (g_parts s) (g_conc s) (g_psends s) (g_fatal s) (g_accepted s) (g_done s) (g_runs s) v (g_trace s) (g_from s) (h_open s) (g_rj s).
 Definition set_g_trace (v : list tev) (s : st) : st :=
-  mkSt (s_max s) (s_discov s) (s_queue s) (s_pending s) (s_active s) (s_resp s) (s_nframes s) (s_pdisc s) (s_rdisc s) (m_out s) (m_dout s) (m_script s) (m_dscript s) (m_nrun s) (h_next s) (h_ndid s) (h_paused s) (g_parts s) (g_conc s) (g_psends s) (g_fatal s) (g_accepted s) (g_done s) (g_runs s) (g_ddone s) v.
+  mkSt (s_max s) (s_discov s) (s_queue s) (s_pending s) (s_active s) (s_resp s) (s_nframes s) (s_pdisc s) (s_rdisc s) (m_out s) (m_dout s) (m_script s) (m_dscript s) (m_nrun s) (h_next s) (h_ndid s) (h_paused s) (g_parts s) (g_conc s) (g_psends s) (g_fatal s) (g_accepted s) (g_done s) (g_runs s) (g_ddone s) v (g_from s) (h_open s) (g_rj s).
+Definition set_g_from (v : list N) (s : st) : st :=
+  mkSt (s_max s) (s_discov s) (s_queue s) (s_pending s) (s_active s) (s_resp s) (s_nframes s) (s_pdisc s) (s_rdisc s) (m_out s) (m_dout s) (m_script s) (m_dscript s) (m_nrun s) (h_next s) (h_ndid s) (h_paused s) (g_parts s) (g_conc s) (g_psends s) (g_fatal s) (g_accepted s) (g_done s) (g_runs s) (g_ddone s) (g_trace s) v (h_open s) (g_rj s).
+Definition set_h_open (v : N) (s : st) : st :=
+  mkSt (s_max s) (s_discov s) (s_queue s) (s_pending s) (s_active s) (s_resp s) (s_nframes s) (s_pdisc s) (s_rdisc s) (m_out s) (m_dout s) (m_script s) (m_dscript s) (m_nrun s) (h_next s) (h_ndid s) (h_paused s) (g_parts s) (g_conc s) (g_psends s) (g_fatal s) (g_accepted s) (g_done s) (g_runs s) (g_ddone s) (g_trace s) (g_from s) v (g_rj s).
+Definition set_g_rj (v : N) (s : st) : st :=
+  mkSt (s_max s) (s_discov s) (s_queue s) (s_pending s) (s_active s) (s_resp s) (s_nframes s) (s_pdisc s) (s_rdisc s) (m_out s) (m_dout s) (m_script s) (m_dscript s) (m_nrun s) (h_next s) (h_ndid s) (h_paused s) (g_parts s) (g_conc s) (g_psends s) (g_fatal s) (g_accepted s) (g_done s) (g_runs s) (g_ddone s) (g_trace s) (g_from s) (h_open s) v.
 
 Definition K_ANSWERED : N := 0.
 Definition K_REJECTED : N := 1.
@@ -146,7 +156,7 @@ Definition K_DESTROYED : N := 2.
 Definition is_nil {A} (l : list A) : bool := match l with [] => true | _ => false end.
 
 Definition init (max : N) (discov : bool) (ms : list mitem) (ds : list bool) : st :=
-  mkSt max discov [] false true None 0 [] [] [] [] ms ds 0 0 0 false [] 0 0 false [] [] [] [] [].
+  mkSt max discov [] false true None 0 [] [] [] [] ms ds 0 0 0 false [] 0 0 false [] [] [] [] [] [] 0 0.
 
 (* RDMResponse::CombineResponses *)
 Definition combine (a b : resp) : option resp :=
@@ -201,7 +211,7 @@ Definition start_disc (s : st) (ag : list frame) : st * list frame :=
   let full := existsb (fun e => fst (fst e)) (s_pdisc s) in
   let reqs := map (fun e => (snd (fst e), Some (snd e))) (s_pdisc s) in
   let run := m_nrun s in
-  let s := set_g_runs (g_runs s ++ [(run, full, map (fun e => snd (fst e)) (s_pdisc s))]) s in
+  let s := set_g_runs (g_runs s ++ [(run, full, map (fun e => fst e) (s_pdisc s))]) s in
   let s := set_s_rdisc (s_rdisc s ++ reqs) s in
   let s := set_s_pdisc [] s in
   let s := set_m_nrun (run + 1) s in
@@ -221,13 +231,14 @@ Definition take_next (s : st) (ag : list frame) : st * list frame :=
   else maybe_send s ag.
 
 (* RunCallback(reply): pops the front request and runs its completion callback *)
-Definition run_callback (rep : reply) (parts : list (list N)) (s : st) (ag : list frame)
+Definition run_callback (rep : reply) (parts : list (list N)) (froms : list N) (s : st) (ag : list frame)
   : st * list frame :=
   match s_queue s with
   | [] => (set_g_fatal true s, ag)      (* front() of an empty queue: callers exclude it *)
   | (id, cb) :: rest =>
-    let c := mkComp id K_ANSWERED rep parts in
+    let c := mkComp id K_ANSWERED rep parts froms in
     let s := set_s_queue rest s in
+    let s := set_h_open (h_open s - 1) s in
     let s := set_g_done (g_done s ++ [c]) s in
     let s := set_g_trace (g_trace s ++ [TComp c]) s in
     (s, map FOp cb ++ ag)
@@ -238,8 +249,9 @@ Definition continue_overflow (s : st) (ag : list frame) : st * list frame :=
   if s_active s then maybe_send s ag else (s, ag).
 
 (* HandleRDMResponse(reply) *)
-Definition handle (rep : reply) (s : st) (ag : list frame) : st * list frame :=
+Definition handle (from : N) (rep : reply) (s : st) (ag : list frame) : st * list frame :=
   let s := set_s_pending false s in
+  let froms := g_from s ++ [from] in
   if is_nil (s_queue s) then (set_g_fatal true s, ag)   (* OLA_FATAL: response but queue empty *)
   else
     match s_resp s with
@@ -248,21 +260,21 @@ Definition handle (rep : reply) (s : st) (ag : list frame) : st * list frame :=
       | None =>
         (* failed part way through an ACK_OVERFLOW *)
         let nf := s_nframes s + r_frames rep in
-        let s := set_g_parts [] (set_s_nframes 0 (set_s_resp None s)) in
-        run_callback (mkReply (r_status rep) None nf) [] s (FTakeNext :: ag)
+        let s := set_g_from [] (set_g_parts [] (set_s_nframes 0 (set_s_resp None s))) in
+        run_callback (mkReply (r_status rep) None nf) [] froms s (FTakeNext :: ag)
       | Some rs =>
         let nf := s_nframes s + r_frames rep in
         let parts := g_parts s ++ [rs_data rs] in
         match combine acc rs with
         | None =>
-          let s := set_g_parts [] (set_s_nframes 0 (set_s_resp None s)) in
-          run_callback (mkReply RDM_INVALID_RESPONSE None nf) [] s (FTakeNext :: ag)
+          let s := set_g_from [] (set_g_parts [] (set_s_nframes 0 (set_s_resp None s))) in
+          run_callback (mkReply RDM_INVALID_RESPONSE None nf) [] froms s (FTakeNext :: ag)
         | Some c =>
           if negb (rs_type rs =? ACK_OVERFLOW) then
-            let s := set_g_parts [] (set_s_nframes 0 (set_s_resp None s)) in
-            run_callback (mkReply RDM_COMPLETED_OK (Some c) nf) parts s (FTakeNext :: ag)
+            let s := set_g_from [] (set_g_parts [] (set_s_nframes 0 (set_s_resp None s))) in
+            run_callback (mkReply RDM_COMPLETED_OK (Some c) nf) parts froms s (FTakeNext :: ag)
           else
-            continue_overflow (set_g_parts parts (set_s_nframes nf (set_s_resp (Some c) s))) ag
+            continue_overflow (set_g_from froms (set_g_parts parts (set_s_nframes nf (set_s_resp (Some c) s)))) ag
         end
       end
     | None =>
@@ -270,11 +282,11 @@ Definition handle (rep : reply) (s : st) (ag : list frame) : st * list frame :=
       | Some rs =>
         if rs_type rs =? ACK_OVERFLOW then
           (* start of an ACK_OVERFLOW sequence *)
-          continue_overflow (set_g_parts [rs_data rs]
-                               (set_s_nframes (r_frames rep) (set_s_resp (Some rs) s))) ag
-        else run_callback rep [rs_data rs] s (FTakeNext :: ag)
+          continue_overflow (set_g_from froms (set_g_parts [rs_data rs]
+                               (set_s_nframes (r_frames rep) (set_s_resp (Some rs) s)))) ag
+        else run_callback rep [rs_data rs] froms s (FTakeNext :: ag)
       | None =>
-        run_callback rep (match r_resp rep with Some rs => [rs_data rs] | None => [] end) s
+        run_callback rep (match r_resp rep with Some rs => [rs_data rs] | None => [] end) froms s
                      (FTakeNext :: ag)
       end
     end.
@@ -294,9 +306,15 @@ Definition do_op (o : op) (s : st) (ag : list frame) : st * list frame :=
   | Resume => take_next (set_s_active true (set_h_paused false s)) ag   (* fix 01 *)
   | Submit cb =>
     let id := h_next s in
+    (* harness bookkeeping: it expects a rejection iff its own count of accepted, uncompleted
+       requests has reached the limit; g_rj counts the disagreements *)
+    let expect := s_max s <=? h_open s in
+    let full := s_max s <=? len (s_queue s) in
     let s := set_h_next (id + 1) s in
-    if s_max s <=? len (s_queue s) then
-      let c := mkComp id K_REJECTED (mkReply RDM_FAILED_TO_SEND None 0) [] in
+    let s := set_h_open (if expect then h_open s else h_open s + 1) s in
+    let s := set_g_rj (if Bool.eqb expect full then g_rj s else g_rj s + 1) s in
+    if full then
+      let c := mkComp id K_REJECTED (mkReply RDM_FAILED_TO_SEND None 0) [] [] in
       let s := set_g_done (g_done s ++ [c]) s in
       let s := set_g_trace (g_trace s ++ [TComp c]) s in
       (s, map FOp cb ++ ag)
@@ -314,7 +332,7 @@ Definition do_op (o : op) (s : st) (ag : list frame) : st * list frame :=
   | Deliver r =>
     match m_out s with
     | [] => (s, ag)
-    | i :: rest => handle (tag i r) (set_m_out rest s) ag
+    | i :: rest => handle i (tag i r) (set_m_out rest s) ag
     end
   | DeliverDisc =>
     match m_dout s with
@@ -384,7 +402,7 @@ Fixpoint exec_ops (s : st) (l : list op) : option st :=
 (* ~QueueingRDMController: every queued request (the one in flight included) is completed with
    RDM_FAILED_TO_SEND, in queue order.  (Callbacks must not call into the dying controller.) *)
 Definition destroy (s : st) : st :=
-  let cs := map (fun e => mkComp (fst e) K_DESTROYED (mkReply RDM_FAILED_TO_SEND None 0) [])
+  let cs := map (fun e => mkComp (fst e) K_DESTROYED (mkReply RDM_FAILED_TO_SEND None 0) [] [])
                 (s_queue s) in
   set_g_trace (map TComp cs) (set_g_done (g_done s ++ cs) (set_s_queue [] s)).
 
@@ -425,3 +443,18 @@ Definition bad_data (l : list comp) : nat := length (filter (fun c => negb (comp
 (* submitted ids without a completion *)
 Definition lost (s : st) : nat :=
   length (filter (fun i => Nat.eqb (count_id i (g_done s)) 0) (map N.of_nat (seq 0 (N.to_nat (h_next s))))).
+
+(* discovery verdict as the harness computes it: callbacks run twice + runs that served callbacks
+   and whose full flag differs from the OR of what the served requests asked for *)
+Fixpoint ddups (l : list (N * N)) : nat :=
+  match l with
+  | [] => O
+  | e :: r => Nat.add (if existsb (fun x => fst x =? fst e) r then 1%nat else O) (ddups r)
+  end.
+Definition dv_of (s : st) : nat :=
+  Nat.add (ddups (g_ddone s))
+    (length (filter (fun e : N * bool * list (bool * N) =>
+       let run := fst (fst e) in
+       let served := filter (fun q : bool * N =>
+                       existsb (fun x => (fst x =? snd q) && (snd x =? run)) (g_ddone s)) (snd e) in
+       negb (is_nil served) && negb (Bool.eqb (snd (fst e)) (existsb fst served))) (g_runs s))).
